@@ -358,12 +358,32 @@ pub fn reference(scn: &Scenario) -> Result<String, (Phase, String)> {
     compile_to_yaml("file:///w/", &scn.files, &main_path(scn)).map_err(|f| (f.phase, f.message))
 }
 
+/// Sources that are invalid whatever else they hold, decided on the main module's text alone
+/// (so it stays true under minimisation): no token starts with U+FEFF or with `^`, and a run of
+/// `^` from the start of a line to the end of the text is inside no comment (line comments end
+/// with the line, block comments need a closing `*/`), no string and no annotation (both need a
+/// closing quote).
+pub fn certainly_invalid(scn: &Scenario) -> Option<&'static str> {
+    let t = scn.files.get(&main_path(scn))?;
+    if t.starts_with('\u{feff}') {
+        return Some("a byte order mark starts the main module");
+    }
+    let last = t.rsplit('\n').next().unwrap_or("");
+    if !last.is_empty() && last.chars().all(|c| c == '^') {
+        return Some("stray characters end the main module");
+    }
+    None
+}
+
 /// Fault-free oracle (a).
 pub fn check_fault_free(scn: &Scenario, o: &Outcome) -> Option<Violation> {
     if o.stderr.starts_with("harness:") {
         return None;
     }
     let r = reference(scn);
+    if let (Ok(_), Some(why)) = (&r, certainly_invalid(scn)) {
+        return v("invalid-sources-accepted", format!("{why}, yet the pipeline accepts the sources"));
+    }
     let t = target_name(scn);
     let t = t.as_str();
     if o.ignored_target_written {
@@ -835,6 +855,7 @@ pub fn run(seed: u64, run: u64) -> Report {
         seed: wl.next_u64(),
         multibyte: wl.below(3) as u8,
         crlf: (0..8).map(|_| wl.chance(1, 4)).collect(),
+        lone_cr: false,
         comments: true,
         shape: *wl.pick(&[0, 0, 0, 1, 2]),
     };
